@@ -218,7 +218,7 @@ def run(ctx):
                'interpolate_variable clamps to 0.999*a_max by design: anything between the interpolants at 0.999*a_max and a_max is accepted',
                'rtol 1e-11 (1e-9 for the composite SED)')
     ctx.require_events('ConvolvedFluxes.interpolate:post', 'SED.interpolate:post', 'SED.interpolate_variable:post', 'variable:node-checked',
-                       'refused:convolved', 'refused:sed', 'refused:variable', 'convolved:same-table-again', 'convolved:table-changed-between-calls', 'convolved:table-without-errors', 'sed:apertures-replaced-between-calls', 'sed:fluxes-replaced-between-calls', 'convolved:apertures-replaced-between-calls', 'convolved:request-dtypes')
+                       'refused:convolved', 'refused:sed', 'refused:variable', 'convolved:same-table-again', 'convolved:table-changed-between-calls', 'convolved:table-without-errors', 'sed:apertures-replaced-between-calls', 'sed:fluxes-replaced-between-calls', 'convolved:apertures-replaced-between-calls', 'convolved:request-dtypes', 'convolved:flux-scaled-with-augmented-assignment')
     ctx.require_regimes('sed:request-as-integers', 'sed:request-as-float32', 'single-aperture', 'convolved:no-apertures', 'convolved:flux-unit-not-mJy', 'convolved:error-unit-differs', 'sed:desc-wav', 'sed:flux-unit-not-mJy', 'unit:pc', 'unit:cm', 'sed-apertures:cm', 'above-table', 'on-knot')
     n_it = 250 if ctx.quick else 10000
     for it in range(n_it):
@@ -292,6 +292,9 @@ def run(ctx):
             if it % 3 == 1:
                 # the table itself changed by the user between calls (values re-assigned; rows re-ordered with sort_to_match):
                 # every call must answer from the table as it is then (the contract snapshots it before each call)
+                cf.flux *= 1.7          # (augmented assignment: the same array object, scaled in place and assigned back)
+                cf.interpolate(rq)
+                ctx.event('convolved:flux-scaled-with-augmented-assignment')
                 fl2 = gen.conv_grid(rng, n_m, 1, n_ap=n_ap)[:, :, 0]
                 cf.flux = (fl2 * u.mJy).to(cfe)
                 if cf.error is not None:
